@@ -89,11 +89,82 @@ def jobs(tier):
     out = [{"kind": "merge", "ntopics": 2 if q else 3}]
     for api in ("produce", "fetch", "produce0"):
         out.append({"kind": "heal", "api": api, "faults": 1 if q else 2})
+    out.append({"kind": "outage"})
     return out
 
 
 def scenario(job):
+    if job["kind"] == "outage":
+        return _outage(job)
     return _merge(job) if job["kind"] == "merge" else _heal(job)
+
+
+def _outage(job):
+    """The real Producer on the real client: the whole cluster (and the bootstrap host) is unreachable for a while, so even the
+    metadata re-resolution fails; once it is back, producing must resume within the producer's retry budget."""
+    from afkak.producer import Producer
+
+    from vlib.sim.producer_e2e import KeyPartitioner
+
+    def run(ctx):
+        clock = Clock()
+        cl = SimCluster(clock)
+        client_mod.random = _Shuffle(ctx, max_perms=1)
+        nb = 1 + ctx.choose("brokers", 2)
+        for n in range(1, nb + 1):
+            cl.add_broker(n)
+        cl.leaders[("t", 0)] = 1
+        cl.leaders[("t", 1)] = nb
+        ctx.sig("outage")
+        client = KafkaClient("boot:9092", reactor=clock, endpoint_factory=cl.net.endpoint_factory, timeout=2000,
+                             retry_policy=lambda n_: 0.5, enable_protocol_version_discovery=False)
+        producer = Producer(client, partitioner_class=KeyPartitioner, req_acks=1, max_req_attempts=10, retry_interval=1.0)
+        st = {"down": False}
+
+        def drive(res, limit_s):
+            t_end = clock.seconds() + limit_s
+            hold = []
+            for _ in range(400):
+                if res:
+                    return
+                for at in cl.net.pending_attempts():
+                    if st["down"]:
+                        at.refuse()
+                _pump(ctx, cl, clock, lambda n: "answer", res, hold=hold)
+                for x in list(hold):
+                    if not x.answered and not x.transport.closed:
+                        cl.answer(x)
+                    hold.remove(x)
+                if res:
+                    return
+                nt = next_timer(clock)
+                if nt is None or nt.getTime() > t_end:
+                    return
+                fire_next_timer(clock)
+
+        r0 = []
+        producer.send_messages("t", key=b"0", msgs=[b"warm"]).addBoth(r0.append)
+        drive(r0, 30.0)
+        ctx.check(len(r0) == 1 and not isinstance(r0[0], Failure), "first-call-succeeds", repr(r0))
+        # outage: every broker and the bootstrap host refuse connections, open connections drop
+        st["down"] = True
+        for tr in cl.net.open_transports():
+            tr.drop()
+        ctx.log("outage-begins")
+        r1 = []
+        producer.send_messages("t", key=b"0", msgs=[b"during-outage"]).addBoth(r1.append)
+        outage_s = (1.0, 3.0, 6.0)[ctx.choose("outage_seconds", 3)]
+        drive(r1, outage_s)
+        st["down"] = False
+        ctx.log("outage-ends", clock.seconds(), len(r1))
+        ctx.check(not r1, "producer-keeps-retrying-through-an-outage", "after %.1f s of outage the send already gave up: %r (attempt limit 10)" % (outage_s, r1))
+        drive(r1, 60.0)
+        ok = len(r1) == 1 and not isinstance(r1[0], Failure)
+        ctx.check(ok, "heals-within-retry-budget", "the message submitted during the outage was not delivered after the cluster came back: %r" % (r1,))
+        if ok:
+            ctx.check((None, b"during-outage") in [(k, v) for (k, v) in cl.logs.get(("t", 0), [])] or any(v == b"during-outage" for (_k, v) in cl.logs.get(("t", 0), [])), "view-equals-cluster-after-healing", "log of t/0: %r" % (cl.logs.get(("t", 0)),))
+
+    return run
 
 
 BROKER_SETS = [[1, 2, 3], [1, 2], [2, 3], [3]]
